@@ -362,6 +362,11 @@ impl<W: WorldSpec> Engine<W> {
             return;
         }
         self.ms[dst] = m2;
+        // C13 speaks about clone(); after clone_from only C12 binds the capacity (>= len, checked by
+        // the audit): a buffer-recycling clone_from may legitimately keep a larger one
+        for (ai, d) in W::archs().iter().enumerate() {
+            self.ms[dst].archs[ai].cap = d.capacity(self.ws[dst].as_ref().unwrap());
+        }
         self.dm_cache.clear();
         // dst leaves its old lineage and joins src's
         for e in self.book.iter_mut() {
@@ -618,8 +623,10 @@ impl<W: WorldSpec> Engine<W> {
                 let sm = self.ms[src].archs[ai].clone();
                 let issued: Vec<Bits> = self.ms[src].issued.iter().copied().filter(|b| of_arch(b)).collect();
                 let wrapped: Vec<(usize, u32)> = self.ms[src].wrapped.iter().copied().filter(|(x, _)| *x == ai).collect();
+                let cap = W::archs()[ai].capacity(self.ws[dst].as_ref().unwrap());
                 let m = &mut self.ms[dst];
                 m.archs[ai] = sm;
+                m.archs[ai].cap = cap;
                 m.issued.extend(issued);
                 m.wrapped.extend(wrapped);
                 for (b, cols) in rows {
